@@ -123,7 +123,7 @@ func (e *C11) Run(c *core.Ctx, idx int) {
 			t = tiny()
 		}
 		heifTIFF = t
-		data = gen.BuildHEIF(r, t, r.Intn(8))
+		data = gen.BuildHEIF(r, t, r.Intn(16))
 		// recover the top-level layout with the harness's own walker
 		p := 0
 		for p+8 <= len(data) {
